@@ -79,6 +79,8 @@ SPECIAL_KEYS = ["T", "F", "N", "D0000000000000000", "D8000000000000000", "D7ff00
                 "L-9223372036854777856", "Dc3e0000000000001", "L9223372036854777856", "D43e0000000000001", "L-18446744073709549568",
                 "Dc3efffffffffffff", "L-9007199254740993", "I-9007199254740993", "Dc340000000000000", "L-9223372036854775809",
                 "S-", "Y-", "B-", "S61", "Y61", "B61", "S62", "Y62", "B6161", "Sc3a9", "Yc3a9", "Bc3a9", "Yff", "Bff",
+                # content that is not valid UTF-8, in all three string types (a Go string can hold any bytes), bare and in tuples
+                "Sff", "S63616665e9", "Y63616665e9", "B63616665e9", "Sd0", "Yd0", "t( Sff )", "t( Yff )", "t( Bff )", "R( Sff )", "R( Yff )",
                 "C6d.6e", "C6d.6f", "C-.-", "c( C6d.6e )", "c( C6d.6e I1 )", "c( C6d.6e D3ff0000000000000 )", "c( C6d.6f I1 )",
                 "R( I1 )", "R( L1 )", "R( S61 )", "R( Y61 )", "R( t( I1 ) )", "t( )", "t( I1 )", "t( T )", "t( L1 )",
                 "t( D3ff0000000000000 )", "t( I1 I2 )", "t( I1 t( I2 ) )", "t( S61 )", "t( Y61 )", "t( B61 )", "t( N )",
@@ -269,7 +271,8 @@ class C08:
                 hs.append([(op, k, f"I{100 + i}") for i, (op, k) in enumerate(combo)])
         ctx.exhaustive = True
         # every history of length <= 3 over each family of nested ByteString / string / Bytes keys
-        for fam in (NESTED[0:3], NESTED[3:6], NESTED[6:9], NESTED[9:12], ["S61", "B61", "Y61", "t( S61 )", "t( B61 )", "t( Y61 )"]):
+        for fam in (NESTED[0:3], NESTED[3:6], NESTED[6:9], NESTED[9:12], ["S61", "B61", "Y61", "t( S61 )", "t( B61 )", "t( Y61 )"],
+                    ["Sff", "Bff", "Yff", "t( Sff )", "t( Yff )"], ["S63616665e9", "Y63616665e9", "B63616665e9"]):
             opsn = [("S", k) for k in fam] + [("D", k) for k in fam] + [("G", k) for k in fam]
             for n in range(1, 4):
                 for combo in itertools.product(opsn, repeat=n):
@@ -339,7 +342,11 @@ class C08:
             if len(gs) != len(h) or len(ls) != len(h):
                 ctx.disagree(line[:2000], g[:500], l[:500], "answer count")
                 continue
-            ref = ref_history(h)
+            try:
+                ref = ref_history(h)
+            except Exception:     # noqa: a Go string that is not valid UTF-8 has no Python counterpart: model only
+                ref = [(None, None)] * len(h)
+                ctx.count("history:no-python-reference")
             ctx.traces += 1
             agree = True
             for i, ((op, k, v), a, m, (cands, es)) in enumerate(zip(h, gs, ls, ref)):
@@ -358,6 +365,8 @@ class C08:
                 n_len, n_iter = int(f[0][4:]), int(f[1][5:])
                 if n_len != n_iter:
                     ctx.violate("Len differs from the number of entries Iter yields", line[:3000] + f"  [op {i}]", n_iter, n_len)
+                if es is None:
+                    continue
                 want = "d( " + "".join(x + " " + y + " " for x, y in sorted((_canon(a_), b_) for a_, b_ in es)) + ")"
                 if f[2] != want:
                     ctx.violate("Dict contents differ from the reference dictionary with Python equality", line[:3000] + f"  [op {i}]", want[:800], f[2][:800])
